@@ -533,6 +533,27 @@ def accept_oracle_core(case, impl, note):
     settings = spec_settings(sx[1], set())
     if settings & {"ignore_errors"}:
         return None
+    # behind the generated `help` subcommand the candidates are the copies `build()` hangs under it; a copy is hidden iff the
+    # user's subcommand of that name (same path from the root) is (seeded change seed4/C18-2: the copy lost its hide flag).
+    # (judged before the prefix filter: the prefix `prog help ..` itself answers DisplayHelp)
+    root0 = node_of(info["tree"][0])
+    start0 = 0 if "no_binary_name" in root0["flags"] else 1
+    pre_toks = argv[start0:index]
+    if pre_toks and pre_toks[0] == b"help" and "disable_help_subcommand" not in settings \
+            and "(sub (cmd x68656c70" not in case and all(t and not t.startswith(b"-") for t in pre_toks):
+        user = root0
+        for t in pre_toks[1:]:
+            user = find_sub(user, t) if user is not None else None
+        if user is not None:
+            cids = {}
+            for it in info["acc"]:
+                cids.setdefault(unhex(it[0]), []).append(None if it[2] == "none" else unhex(it[2]))
+            hidden_user = [v for v, _ in cands for cid in cids.get(v, [None]) if cid and cid.startswith(b"command::")
+                           and (find_sub(user, v) or {}).get("hidden")]
+            visible_any = [v for v, _ in cands if v not in hidden_user]
+            if hidden_user and visible_any:
+                return "behind `help`, %r names a subcommand hidden by definition but is offered although %r matches" % (
+                    hidden_user[0], visible_any[0])
     if info["prefix"][0] not in CLEAN_PREFIX:
         return None
     root = node_of(info["tree"][0])
@@ -650,21 +671,6 @@ def accept_oracle_core(case, impl, note):
         bad = [v for v, x in dh if x is True]
         if bad:
             return "spelling %r is hidden by definition but offered although a visible spelling matches" % bad[0]
-    # behind the generated `help` subcommand the candidates are the copies `build()` hangs under it; a copy is hidden iff the
-    # user's subcommand of that name (same path from the root) is (seeded change seed4/C18-2: the copy lost its hide flag)
-    pre_toks = argv[start:index]
-    if pre_toks and pre_toks[0] == b"help" and "disable_help_subcommand" not in settings \
-            and "(sub (cmd x68656c70" not in case:       # (no user subcommand is itself called `help`, at any level)
-        user = root
-        for t in pre_toks[1:]:
-            user = find_sub(user, t) if user is not None else None
-        if user is not None and level is not user:
-            hidden_user = [v for v, _ in cands for cid in ids.get(v, [None]) if cid and cid.startswith(b"command::")
-                           and (find_sub(user, v) or {}).get("hidden")]
-            visible_any = [v for v, _ in cands if v not in hidden_user]
-            if hidden_user and visible_any:
-                return "behind `help`, %r names a subcommand hidden by definition but is offered although %r matches" % (
-                    hidden_user[0], visible_any[0])
     # ---- completeness: visible options / subcommands with a spelling extending the (well-formed) word
     if weak:
         return None
@@ -1166,6 +1172,16 @@ def gen_paths():
     return out
 
 
+def gen_behind_help(mode):
+    """the level behind the generated `help` subcommand, on the fixed commands (one of which has a hidden subcommand)"""
+    out = []
+    for c in fixed_commands():
+        for w in (b"", b"h", b"s", b"hi", b"su", b"he", b"x"):
+            out.append(case_line(mode, c, [b"prog", b"help", w], 2))
+            out.append(case_line(mode, c, [b"prog", b"help", b"sub", w], 3))
+    return out
+
+
 def gen_pending(mode):
     """directed family: an option spelling, then any token (its value, or not), then the word under the
     cursor - every (pending option x token shape x word) combination on the fixed commands"""
@@ -1241,7 +1257,8 @@ def streams(tier, rng):
     acc_cases = gen_random(rng, 60 if quick else 500, 2, "dynaccept", conventional=False) \
         + gen_random(rng, 80 if quick else 700, 2, "dynaccept", conventional=True) \
         + gen_states(rng, tier, "dynaccept", 1 if quick else 2, 250 if quick else 3000) \
-        + gen_pending("dynaccept") + gen_precedence("dynaccept") + gen_argsconflict("dynaccept") + gen_terminators("dynaccept") + gen_reqeq("dynaccept")
+        + gen_pending("dynaccept") + gen_precedence("dynaccept") + gen_argsconflict("dynaccept") + gen_terminators("dynaccept") + gen_reqeq("dynaccept") \
+        + gen_behind_help("dynaccept")
     ord_cases = gen_order(rng, 60 if quick else 600, 3)
     return [
         Stream("dyn", dyn_cases, oracle=total_oracle, area="dynamic", project=project, nontrivial=nontrivial,
